@@ -8,12 +8,14 @@ fingerprints (heights, component dimensions, number densities) that adapters com
     w.core, w.r, w.sfp, w.fh, w.asm[id], w.blk[(id, k)] (k = 1-based axial position at build time)
 
 Block type letters (one HexBlock/CartesianBlock per letter, bottom to top):
-    G  "grid plate"  (Flags.GRID_PLATE)   steel hexagon/rectangle
-    F  "fuel"        (Flags.FUEL)         UZr pins + HT9 clad + sodium
-    P  "plenum"      (Flags.PLENUM)       HT9 clad tubes + sodium
-    S  "axial shield"(Flags.AXIAL|SHIELD) HT9 pins + sodium
-Every block of one assembly gets its own enrichment/temperature variation derived from (assembly id, position) so
-that no two blocks have the same fingerprint (an exchanged or copied block is visible).
+    G  "grid plate"  (Flags.GRID_PLATE)   HT9 plate
+    F  "fuel"        (Flags.FUEL)         UZr pins + HT9 clad
+    P  "plenum"      (Flags.PLENUM)       HT9 clad tubes
+    S  "axial shield"(Flags.AXIAL|SHIELD) HT9 pins
+    (each inside an HT9 duct with a sodium inter-assembly gap)
+Every block gets its own hot temperature (and fuel blocks their own U235 content) derived from (assembly id,
+position), so that no two blocks have the same fingerprint: an exchanged, copied or altered block is visible.
+geom: "hex" (symmetry "full" | "third" periodic) or "cartesian".  Build time ~15 ms for 5 assemblies.
 """
 import math
 
